@@ -28,6 +28,9 @@ typedef struct {
 
   esl_pos_t  anchor;	          /* buf[anchor..n-1] safe from overwrite [-1=unset]       */
   int        nanchor;		  /* number of anchors set at <anchor>                     */
+  int        stable;              /* TRUE while an anchor set by SetStableAnchor() holds   */
+  char     **retired;             /* earlier <mem> blocks that stable pointers may be in   */
+  int        nretired;            /* number of blocks in <retired>                         */
 
   FILE      *fp;	          /* open stream; NULL if already entirely in memory       */
   char      *filename;	          /* for diagnostics. filename; or NULL (stdin, string)    */
